@@ -513,7 +513,7 @@ class DB:
             return
         base = set(json.load(open(base_p))["fns"])   # list or dict of ids
         new = {f.id for f in self.fns.values() if f.kind in ("Fn", "AssocFn") and not f.from_expansion and f.id not in base
-               and " as " not in f.id and "{closure" not in f.id and f.crate in LIB_CRATES and not any(l.startswith("{coroutine") or "{async" in l for l in f.locals[:1])}
+               and not re.search(r" as [^>]*>::[A-Za-z0-9_]+$", f.id) and "{closure" not in f.id and f.crate in LIB_CRATES and not any(l.startswith("{coroutine") or "{async" in l for l in f.locals[:1])}
         if not new:
             return
         # a helper handed around as a value (fn item operand) cannot be inlined away
